@@ -2,8 +2,8 @@ SPECIFICATION Spec
 CONSTANTS
   Signals = {"logs", "metrics"}
   Keys = {1, 2}
-  Slots = {0, 1, 2}
-  SlotsPerDay = 2
+  Slots = {0, 1}
+  SlotsPerDay = 1
   MaxPushes = 2
   MaxItems = 2
   MaxFaults = 1
